@@ -8,6 +8,7 @@ import (
 
 	"github.com/refraction-networking/conjure/internal/verifnd"
 	"github.com/refraction-networking/conjure/pkg/station/log"
+	pb "github.com/refraction-networking/conjure/proto"
 )
 
 func verifLeaks(buf *bytes.Buffer, needle string) bool {
@@ -19,7 +20,7 @@ func verifLeaks(buf *bytes.Buffer, needle string) bool {
 
 // VerifC17Relay: with client-address logging disabled and the default log
 // level, no error shape (each anticipated errno, an unanticipated one, a
-// timeout, EOF, closed, an opaque error) at any I/O call of the relay (read,
+// deadline timeout, a kernel timeout, EOF, closed, an opaque error) at any I/O call of the relay (read,
 // write, set-deadline, close; either direction) puts the client's address into
 // a log line or into the tunnel summary - for IPv4 and IPv6 clients.
 // verif:shards=8
@@ -28,7 +29,7 @@ func VerifC17Relay() {
 	k := verifnd.Choose("case", 8) // sharded: call site x direction
 	site := k % 4                  // read, write, set-deadline, close
 	upload := k/4 == 0
-	kind := verifnd.Choose("kind", 7)
+	kind := verifnd.Choose("kind", 11) // every shape of verifErr
 	client := "203.0.113.77"
 	if verifnd.Bool("v6-client") {
 		client = "2001:db8:c11e::77"
@@ -79,4 +80,62 @@ func VerifC17Relay() {
 	verifnd.Assert(!verifLeaks(&logbuf, client), "C17.relay.no-client-address-in-logs")
 	verifnd.Assert(!strings.Contains(stats.ClientConnErr, client) && !strings.Contains(stats.CovertConnErr, client) && !strings.Contains(stats.CovertDialErr, client), "C17.relay.no-client-address-in-tunnel-summary")
 	verifnd.Reach("C17.relay.done")
+}
+
+var verifCovertAddr = &net.TCPAddr{IP: net.ParseIP("192.0.2.99"), Port: 443}
+
+// VerifC17Proxy: the relay entry point, with and without the PROXY-header
+// registration flag: the dial fails, or the header write / a later covert write
+// fails or is short (errors of a covert connection name the covert, not the
+// client), or the client side fails in any recognised way: no log line and no
+// field of the tunnel summary contains the client's address.
+// verif:replay=model
+// verif:shards=4
+func VerifC17Proxy() {
+	verifnd.Sequential()
+	k := verifnd.Choose("case", 4) // sharded: PROXY header flag x client family
+	hdr, v6 := k%2 == 1, k/2 == 1
+	client := "203.0.113.77"
+	if v6 {
+		client = "2001:db8:c11e::77"
+	}
+	verifClientAddr = &net.TCPAddr{IP: net.ParseIP(client), Port: 54321}
+	var logbuf bytes.Buffer
+	logger := log.New(&logbuf, "[VERIF] ", 0)
+	cl := &verifConn{name: "client", deadlineErr: -1}
+	covert := &verifConn{name: "covert", deadlineErr: -1, remote: verifCovertAddr}
+	cl.reads = []verifRead{{n: 2}}
+	covert.reads = []verifRead{{n: 2}}
+	kind := verifnd.Choose("kind", 11)
+	fault := verifnd.Choose("fault", 5)
+	verifnd.Finding("C17-F1", kind == 5 && fault >= 3)
+	switch fault {
+	case 0: // dial fails (with an error connect(2) or the resolver can produce: not EOF / EPIPE / closed)
+		verifnd.Cut("dial-error-is-a-connect-error", kind != 0 && kind != 2 && kind != 4)
+		verifnd.DialReturns(nil, verifErrPeer(kind, "dial", verifCovertAddr))
+	case 1: // first covert write (the header, if requested) fails
+		covert.writes = []verifWrite{{accept: 0, err: verifErrPeer(kind, "write", verifCovertAddr)}}
+	case 2: // first covert write is short, the next fails
+		covert.writes = []verifWrite{{accept: 1}, {accept: 0, err: verifErrPeer(kind, "write", verifCovertAddr)}}
+	case 3: // the client's stream ends in an error
+		cl.reads = []verifRead{{n: 2}, {err: verifErr(kind, "read")}}
+	case 4: // writing to the client fails
+		cl.writes = []verifWrite{{accept: 0, err: verifErr(kind, "write")}}
+	}
+	if fault != 0 {
+		verifnd.DialReturns(covert, nil)
+	}
+	reg := verifNewReg(verifSecret(0x33), 0, verifP4)
+	var tr Transport = verifT{"min", 0}
+	reg.TransportPtr = &tr
+	reg.Covert = "192.0.2.99:443"
+	reg.Flags = &pb.RegistrationFlags{ProxyHeader: &hdr}
+	Proxy(reg, cl, logger)
+	verifnd.Settle()
+	verifnd.Assert(!verifLeaks(&logbuf, client), "C17.proxy.no-client-address-in-logs")
+	if hdr && fault >= 2 {
+		// (by design the PROXY header hands the client's address to the covert, and only to it)
+		verifnd.Assert(bytes.Contains(covert.written, []byte(client)) || fault == 2, "C17.proxy.header-reaches-the-covert")
+	}
+	verifnd.Reach("C17.proxy.done")
 }
